@@ -50,3 +50,12 @@ Theorem C13_restore_outgoing_roundtrip : forall mi mb li cs c p,
   forall x, In x (c_outgoing c) <-> In x (cs_voters_outgoing cs) /\ x <> 0.
 Proof. exact restore_outgoing_fresh. Qed.
 Print Assumptions C13_restore_outgoing_roundtrip.
+
+(* Restore, voter half of the round-trip for a non-joint ConfState whose voters are not also
+   listed as learners (what ConfState() of a valid configuration produces). *)
+Theorem C13_restore_voters_roundtrip : forall mi mb li cs c p,
+  cc_restore (make_tracker mi mb) li cs = inl (c, p) -> cs_voters_outgoing cs = [] ->
+  (forall x, In x (cs_voters cs) -> ~ In x (cs_learners cs) /\ ~ In x (cs_learners_next cs)) ->
+  forall x, In x (c_voters c) <-> In x (cs_voters cs) /\ x <> 0.
+Proof. exact restore_voters_fresh. Qed.
+Print Assumptions C13_restore_voters_roundtrip.
